@@ -27,6 +27,7 @@ import (
 	"strconv"
 	"strings"
 	"sync"
+	"sync/atomic"
 	"time"
 )
 
@@ -195,6 +196,10 @@ type Options struct {
 	Args     []string // extra argv for workers (flags are re-parsed by the worker)
 	Env      []string // extra environment
 	MemKB    int64    // ulimit -v per worker (0 = none)
+	// StallSec: a worker that writes nothing to its journal for this long (a case that spins or crawls) is killed
+	// and the journalled case is treated like one that killed the process (0 = 180 s).  The only wall-clock
+	// criterion in the pool; it is orders of magnitude above the normal time of a case.
+	StallSec int
 }
 
 // Parent runs cases [0,total) over opt.Workers subprocesses and returns when all shards are done.
@@ -277,7 +282,18 @@ func Parent(total int, opt Options, sink Sink) error {
 		sc := bufio.NewScanner(pr)
 		sc.Buffer(make([]byte, 1<<20), 64<<20)
 		lastB, flushed, done, stopped := -1, sp.From, false, false
+		stall := time.Duration(opt.StallSec) * time.Second
+		if stall <= 0 {
+			stall = 180 * time.Second
+		}
+		var stalled atomic.Bool
+		watchdog := time.AfterFunc(stall, func() {
+			stalled.Store(true)
+			cmd.Process.Kill()
+		})
+		defer watchdog.Stop()
 		for sc.Scan() {
+			watchdog.Reset(stall)
 			d, st, up := handle(sc.Text(), &lastB, quiet)
 			if up >= 0 {
 				flushed = up
@@ -287,6 +303,9 @@ func Parent(total int, opt Options, sink Sink) error {
 		}
 		pr.Close()
 		cmd.Wait()
+		if stalled.Load() {
+			return false, false, flushed, lastB, fmt.Sprintf("no progress for %v: worker killed by the stall watchdog | %s", stall, tail.String())
+		}
 		return done, stopped, flushed, lastB, tail.String()
 	}
 	for k := 0; k < opt.Workers; k++ {
